@@ -31,21 +31,39 @@ def main():
     ap.add_argument("names", nargs="*")
     ap.add_argument("--all-checks", action="store_true")
     ap.add_argument("--tier", default="quick")
+    ap.add_argument("--jobs", type=int, default=8)
     a = ap.parse_args()
     names = a.names or sorted(n for n in os.listdir(SEEDED) if os.path.isdir(os.path.join(SEEDED, n)))
     allp = [f"C{i:02d}" for i in range(1, 21)]
+    from concurrent.futures import ThreadPoolExecutor
+
+    def one(name):
+        import io
+        buf = io.StringIO()
+        rc = _one(name, a, allp, buf)
+        return name, rc, buf.getvalue()
+
     missed = 0
-    for name in names:
+    with ThreadPoolExecutor(max_workers=a.jobs) as ex:
+        for name, rc, out in ex.map(one, names):
+            sys.stdout.write(out)
+            sys.stdout.flush()
+            missed += rc
+    return 1 if missed else 0
+
+
+def _one(name, a, allp, out):
+    missed = 0
+    if True:
         d = os.path.join(SEEDED, name)
         meta = json.load(open(os.path.join(d, "meta.json")))
         tmp, root = make_copy()
         try:
             r = subprocess.run(["git", "apply", "--whitespace=nowarn", os.path.join(d, "patch.diff")], cwd=root, capture_output=True, text=True)
             if r.returncode != 0:
-                print(f"{name}: patch does not apply: {r.stderr[:300]}")
-                missed += 1
-                continue
-            pids = allp if a.all_checks else [meta["property"]]
+                print(f"{name}: patch does not apply: {r.stderr[:300]}", file=out)
+                return 1
+            pids = allp if a.all_checks else [meta["property"]] + list(meta.get("accept_cross", []))
             caught = []
             for pid in pids:
                 t0 = time.time()
@@ -56,16 +74,16 @@ def main():
                 if rr.returncode == 1:
                     caught.append((pid, mech[0][:160] if mech else ""))
                 elif pid == meta["property"]:
-                    print(f"   {pid} rc={rr.returncode} {rr.stdout.splitlines()[-1] if rr.stdout else rr.stderr[-200:]}")
-            own = [c for c in caught if c[0] == meta["property"]]
-            print(f"{name:28s} property={meta['property']} {'CAUGHT' if own else 'MISSED'} by-own-check; all catching: {[c[0] for c in caught]}")
+                    print(f"   {pid} rc={rr.returncode} {rr.stdout.splitlines()[-1] if rr.stdout else rr.stderr[-200:]}", file=out)
+            own = [c for c in caught if c[0] == meta["property"] or c[0] in meta.get("accept_cross", [])]
+            print(f"{name:28s} property={meta['property']} {'CAUGHT' if own else 'MISSED'} by-own-check; all catching: {[c[0] for c in caught]}", file=out)
             for c in caught[:3]:
-                print(f"      {c[0]}: {c[1]}")
+                print(f"      {c[0]}: {c[1]}", file=out)
             if not own:
                 missed += 1
         finally:
             shutil.rmtree(tmp, ignore_errors=True)
-    return 1 if missed else 0
+    return missed
 
 
 if __name__ == "__main__":
